@@ -5,3 +5,4 @@ import ZeepModel.Url
 import ZeepModel.Loader
 import ZeepModel.Xml
 import ZeepModel.Soap.Reply
+import ZeepModel.Soap.Pipeline
